@@ -34,6 +34,7 @@ type MassDBV1 struct {
 	pubKeyHash pocutil.Hash
 	plotting   int32 // atomic
 	stopPlotCh chan struct{}
+	stopOnce   *sync.Once // closes stopPlotCh at most once per plot
 	wg         sync.WaitGroup
 }
 
@@ -64,11 +65,14 @@ func (mdb *MassDBV1) Plot() chan error {
 	}
 
 	if mdb.HashMapA == nil {
+		// already plotted: nothing runs, so nothing may be left marked as plotting
+		atomic.StoreInt32(&mdb.plotting, 0)
 		result <- nil
 		return result
 	}
 
 	mdb.stopPlotCh = make(chan struct{})
+	mdb.stopOnce = new(sync.Once)
 	mdb.wg.Add(1)
 	go mdb.executePlot(result)
 
@@ -84,8 +88,11 @@ func (mdb *MassDBV1) StopPlot() chan error {
 		return result
 	}
 
+	stopCh, once := mdb.stopPlotCh, mdb.stopOnce
 	go func() {
-		close(mdb.stopPlotCh)
+		if once != nil {
+			once.Do(func() { close(stopCh) })
+		}
 		mdb.wg.Wait()
 		result <- nil
 	}()
